@@ -9,12 +9,25 @@ from ..core import frac
 LEVEL = "proof"
 RULE = ("exhaustive: every (pair of) sorted multiset(s) of <=2 intervals over 0..4 on one chromosome "
         "(quick) / <=2 x <=2 over 0..5 plus a 30% sample of <=2 x 3 over 0..5 (thorough), with and without rows on a second chromosome; "
-        "random: tables <=40 rows, coordinates to 1e6, biased to duplicates/abutting/nested. "
+        "random: tables <=40 rows, coordinates to 1e6, biased to duplicates/abutting/nested, chromosome namings chrN / N / "
+        "chr1_gl..random, chrM / upper-case CHR1, merge bp in 0,1,2 and one of -1e6..1e7 per table; "
+        "10% (exhaustive) / 40% (random) of the cases on tables that are filtered subsets (index labels != positions). "
+        "REPRESENTATIONS: 13% of the exhaustive and 80% of the random cases are run a second time (tag -rep) with a random "
+        "mix of: extra columns weight/probes/strand/accession/depth/log2 (default and custom combiners), no gene column, "
+        "column order (any permutation; for flatten chromosome/start/end stay the first three), int32/float coordinates, "
+        "object-dtype names, CopyNumArray, shuffled row order (every table except the one queried by intersection), "
+        "merge(stranded=True), merge/flatten(combine=...), flatten(split_columns=...), subdivide(verbose=True, numpy "
+        "numbers), chrom_sizes as superset / floats, positional / keyword / defaulted arguments, the same objects used "
+        "twice, inputs compared with a copy taken before the call; the non-coordinate columns are judged by the rep_* clauses "
+        "(Python re-statement of the combiners / 'piece carries every field of its row'), coordinates and gene labels by the Lean model and spec. "
         "non-trivial = at least two rows interact (overlap/abut/nest) or the output differs from the input; "
         "distinct = distinct (op, input) by hash")
 EXHAUSTIVE = {"quick": True, "thorough": True}
 ASSUMPTIONS = [
-    "input tables are sorted (chromosome key, start, end) with start < end, as every GenomicArray read by tabio is",
+    "start < end; the table queried by intersection (self) is sorted (chromosome key, start, end) as every GenomicArray "
+    "read by tabio is -- every other input is also run with its rows shuffled",
+    "column names are Python identifiers (merge renames others to _N)",
+    "merge(stranded=True): the '+' rows go through the Lean model, the whole result through the Python oracle",
     "subdivide: float `int(i*span/n)` vs exact floor differences are knife-edge (skipped for model equality, still checked by the spec oracle)",
 ]
 TRUSTED_EXTRA = ["pandas groupby/sort_values/searchsorted contracts as modelled in Basic.lean"]
@@ -67,6 +80,83 @@ def _with_chr2(t, rng):
     return t + extra
 
 
+def _table_rep(rng, rows, op, role, stranded=False):
+    """a random representation of one table; returns (rep, rows) -- the rows are re-ordered / relabelled when the
+    representation says so (the Lean model sees exactly these rows)"""
+    rep = {}
+    extra = [c for c in EXTRA_COLS if rng.random() < 0.4]
+    rng.shuffle(extra)
+    if stranded and "strand" not in extra:
+        extra.append("strand")
+    gene = rng.random() >= 0.2
+    if gene and rng.random() < 0.12:
+        rep["cls"] = "cna"
+        if "log2" not in extra:
+            extra.append("log2")
+    if not gene:
+        rep["gene"] = False
+        rows = [[r[0], r[1], r[2], "-"] for r in rows]
+    if extra:
+        rep["extra"] = extra
+    coords = ["chromosome", "start", "end"]
+    rest = (["gene"] if gene else []) + extra
+    k = rng.random()
+    if k < 0.5 and not rep.get("cls"):
+        # flatten needs chromosome/start/end to be the first three columns (in any order): with `start` or `end`
+        # further right it raises TypeError, with `gene` among the first three the labels are not combined
+        # -> proposed_fixes/C06-flatten-column-order.md; every other operation takes any column order
+        rng.shuffle(coords)
+        rng.shuffle(rest)
+        cols = coords + rest
+        if rng.random() < 0.6:   # (flatten too: finding BC, fixed in /repo 566e95a)
+            cols = rng.choice([rest[:1] + coords + rest[1:], rest + coords, (coords + rest)[::-1],
+                               rng.sample(coords + rest, len(coords + rest))])
+        rep["cols"] = cols
+    rep["coord"] = rng.choice(["int", "int", "int", "float", "int32"])
+    if rng.random() < 0.3:
+        rep["chrom"] = "object"
+    # row order: every operation sorts or works row by row, except the table QUERIED by intersection (self)
+    if rows and not stranded and not (op == "intersect" and role == "a") and rng.random() < 0.3:
+        rows = list(rows)
+        rng.shuffle(rows)
+        rep["shuffled"] = True
+    return rep, rows
+
+
+def _with_rep(rng, case):
+    """a copy of the case in another representation, with options of the anchored functions set"""
+    import copy
+    c = copy.deepcopy(case)
+    op, i = c["op"], c["in"]
+    opts = {"call": rng.choice(["pos", "kw", "default"])}
+    if rng.random() < 0.3:
+        opts["twice"] = True
+    if op == "merge":
+        if rng.random() < 0.25:
+            opts["stranded"] = True
+        if rng.random() < 0.3:
+            opts["combine"] = rng.choice(MERGE_COMBINE)
+    elif op == "flatten":
+        if rng.random() < 0.4:
+            opts["combine"] = rng.choice(sorted(CUSTOM_COMBINE))
+        if rng.random() < 0.4:
+            opts["split"] = rng.choice([["weight"], ["gene"], ["depth", "probes"]])
+    elif op == "subdivide":
+        if rng.random() < 0.4:
+            opts["verbose"] = True
+        if rng.random() < 0.2:
+            opts["npnum"] = True
+    elif op == "resize":
+        opts["sizes"] = rng.choice(["dict", "superset", "float"])
+    rep = {"opts": opts}
+    for key in ("t", "a", "b"):
+        if key in i:
+            rep[key], i[key] = _table_rep(rng, i[key], op, key, bool(opts.get("stranded")))
+    i["rep"] = rep
+    c["tag"] = c.get("tag", "") + "-rep"
+    return c
+
+
 def gen_cases(rng, tier):
     cases = []
     if tier == "search":
@@ -111,22 +201,42 @@ def gen_cases(rng, tier):
                 cases.append(c)
     n_rand = 150 if tier == "quick" else 1500
     for _ in range(n_rand):
-        chroms = rng.choice([("chr1",), ("chr1", "chr2"), ("chr1", "chr2", "chrX"), ("1", "10", "2", "X", "MT")])
+        chroms = rng.choice([("chr1",), ("chr1", "chr2"), ("chr1", "chr2", "chrX"), ("1", "10", "2", "X", "MT"),
+                             ("chr2", "chr10", "chrX", "chrY", "chrM", "chr1_gl000191_random"), ("CHR1", "Chr2", "chrx")])
         a = T.random_table(rng, 40, chroms, prefix="a")
         b = T.random_table(rng, 40, rng.choice([chroms, chroms[:1], ("chr7",)]), prefix="b")
-        for c in _single_ops(a, rng, True) + _pair_ops(a, b):
+        for c in _single_ops(a, rng, True) + _pair_ops(a, b) + [
+                {"op": "merge", "in": {"t": a, "bp": rng.choice([-10 ** 6, -1000, -10, -1, 3, 10, 1000, 10 ** 7])}}]:
             c["tag"] = "random"
             cases.append(c)
     for c in cases:
         if rng.random() < (0.4 if c.get("tag", "").startswith("random") else 0.1):
             c["in"]["sub"] = rng.randint(1, 10 ** 6)
             c["tag"] = c.get("tag", "") + "-subidx"
-    return cases
+    # the same inputs in other representations / with the options of the anchored functions (added, not replacing)
+    p_exh, p_rand = (0.13, 0.8) if tier == "quick" else (0.05, 0.8)
+    reps = [_with_rep(rng, c) for c in cases
+            if rng.random() < (p_rand if c.get("tag", "").startswith("random") else p_exh)]
+    # hand-picked: every operation on the richest representation (all extra columns, gene first, float coordinates)
+    rich = [["chr1", 0, 10, "a"], ["chr1", 5, 15, "b"], ["chr1", 15, 18, "b"], ["chr1", 20, 30, "c"], ["chr2", 1, 4, "d"]]
+    other = [["chr1", 7, 22, "x"], ["chr1", 8, 9, "y"]]
+    for c in _single_ops(rich) + _pair_ops(rich, other):
+        for cols in (None, ["gene", "chromosome", "start", "end"] + list(EXTRA_COLS)):
+            if c["op"] == "flatten" and cols:
+                cols = ["end", "chromosome", "start", "gene"] + list(EXTRA_COLS)[::-1]
+            d = {"op": c["op"], "tag": "rich-rep", "in": dict(c["in"])}
+            key = "t" if "t" in d["in"] else "a"
+            d["in"]["rep"] = {"opts": {"call": "kw", "twice": True},
+                              key: {"extra": list(EXTRA_COLS), "coord": "float", **({"cols": cols} if cols else {})}}
+            reps.append(d)
+    return cases + reps
 
 
 def run_impl(case):
     T.SUB = case["in"].get("sub")  # tables built as filtered subsets of larger ones (index labels != positions)
     try:
+        if case["in"].get("rep"):
+            return _run_rep(case)
         return _run(case)
     finally:
         T.SUB = None
@@ -152,10 +262,358 @@ def _run(case):
     raise ValueError(op)
 
 
+# ---------------------------------------------------------------------------------------------
+# the same tables in other REPRESENTATIONS (case["in"]["rep"]): extra columns with their combiners, no gene column,
+# column order, dtypes, subclass, options of the anchored functions, call styles, reuse of the objects
+
+EXTRA_COLS = ("weight", "probes", "strand", "accession", "depth", "log2")
+CORE = ("chromosome", "start", "end", "gene")
+
+
+def _extra_value(col, i):
+    """value of extra column `col` for the row at position `i` of the case's row list.  weight: multiples of
+    1/8 (sums are exact in doubles); depth: unique per row (identifies the source row)"""
+    if col == "weight":
+        return ((i * 37) % 11 + 1) / 8.0
+    if col == "probes":
+        return i % 5 + 1
+    if col == "strand":
+        return "+-"[(i * 7 + i // 3) % 2]
+    if col == "accession":
+        return f"NM_{i % 3}"
+    if col == "depth":
+        return i + 0.5
+    if col == "log2":
+        return -(i % 7) / 4.0
+    raise KeyError(col)
+
+
+def _records(rows, rep):
+    recs = []
+    for i, r in enumerate(rows):
+        d = {"chromosome": r[0], "start": int(r[1]), "end": int(r[2])}
+        if rep.get("gene", True):
+            d["gene"] = r[3]
+        for c in rep.get("extra", ()):
+            d[c] = _extra_value(c, i)
+        recs.append(d)
+    return recs
+
+
+def _ga_x(rows, rep, sub=None):
+    """rows -> (GenomicArray in the representation `rep`, its records in row order)"""
+    import random
+    import numpy as np
+    import pandas as pd
+    from skgenome import GenomicArray
+    cls = GenomicArray
+    if rep.get("cls") == "cna":
+        from cnvlib.cnary import CopyNumArray as cls
+    recs = _records(rows, rep)
+    cols = rep.get("cols") or (["chromosome", "start", "end"] + (["gene"] if rep.get("gene", True) else [])
+                               + list(rep.get("extra", ())))
+    body, mask = recs, None
+    if sub is not None and recs:
+        rng = random.Random(sub)
+        body, mask = [], []
+        for d in recs:
+            for _ in range(rng.choice([0, 1, 1, 2, 3])):
+                j = dict(rng.choice(recs))
+                if "gene" in j:
+                    j["gene"] = "junk"
+                body.append(j)
+                mask.append(False)
+            body.append(d)
+            mask.append(True)
+        if all(mask):
+            body.insert(0, dict(recs[0]))
+            mask.insert(0, False)
+    df = pd.DataFrame({c: [d[c] for d in body] for c in cols}, columns=cols)
+    if not body:
+        df = df.astype({c: (int if c in ("start", "end", "probes") else float if c in ("weight", "depth", "log2")
+                            else str) for c in cols})
+    else:
+        coord = rep.get("coord", "int")
+        if coord == "int32":
+            df = df.astype({"start": np.int32, "end": np.int32})
+        elif coord == "float":
+            df = df.astype({"start": float, "end": float})
+        elif coord == "object":
+            df = df.astype({"start": object, "end": object})
+        if rep.get("chrom") == "object":
+            df = df.astype({c: object for c in ("chromosome", "gene") if c in df.columns})
+    arr = cls(df)
+    if mask is not None:
+        arr = arr[np.array(mask)]
+    return arr, recs
+
+
+def _records_of(garr):
+    d = garr.data
+    out = []
+    for tup in d.itertuples(index=False, name=None):
+        out.append({str(c): (v.item() if hasattr(v, "item") else v) for c, v in zip(d.columns, tup)})
+    return out
+
+
+def _uniq_join(vals):
+    seen = []
+    for v in vals:
+        if v not in seen:
+            seen.append(v)
+    return ",".join(seen)
+
+
+def _merge_strands(vals):
+    return "." if len(set(vals)) > 1 else vals[0]
+
+
+CUSTOM_COMBINE = {
+    # name -> (dict handed to the real code, the same functions for the oracle)
+    "explicit_default": lambda: ({"gene": _cmb("join_strings")}, {}),
+    "weight_max": lambda: ({"weight": max}, {"weight": max}),
+    "depth_last": lambda: ({"depth": _cmb("last_of")}, {"depth": lambda v: v[-1]}),
+    "probes_first_acc_last": lambda: ({"probes": _cmb("first_of"), "accession": _cmb("last_of")},
+                                      {"probes": lambda v: v[0], "accession": lambda v: v[-1]}),
+    "depth_min_probes_first": lambda: ({"depth": min, "probes": _cmb("first_of")},
+                                       {"depth": min, "probes": lambda v: v[0]}),
+}
+# merge() hands its combiners a pandas Series, flatten() a list: skgenome.combiners.last_of (`elems[-1]`) raises
+# KeyError on the Series with pandas >= 3 (observation, proposed_fixes/C06-merge-last_of-series.md) -> not used for merge
+MERGE_COMBINE = ("explicit_default", "weight_max", "depth_min_probes_first")
+
+
+def _cmb(name):
+    from skgenome import combiners
+    return getattr(combiners, name)
+
+
+def _oracle_combiners(cols, stranded, custom):
+    cmb = {"gene": _uniq_join, "accession": _uniq_join, "weight": sum, "probes": sum,
+           "strand": (lambda v: v[0]) if stranded else _merge_strands}
+    cmb.update(custom)
+    return {k: f for k, f in cmb.items() if k in cols}
+
+
+def _chrom_resort(recs):
+    from skgenome.chromsort import sorter_chrom
+    return sorted(recs, key=lambda d: sorter_chrom(d["chromosome"]))
+
+
+def _groups_running_max(rows, bp):
+    groups, mx = [], None
+    for d in rows:
+        if mx is None or d["start"] - mx > -bp:
+            groups.append([d])
+            mx = d["end"]
+        else:
+            groups[-1].append(d)
+        mx = max(mx, d["end"])
+    return groups
+
+
+def _oracle_merge(recs, bp, stranded=False, custom=None):
+    """plain re-statement of merge() on records: used for the NON-coordinate columns (the coordinates and the gene
+    labels are judged by the Lean model and spec)"""
+    if not recs:
+        return []
+    run, gaps = recs[0]["end"], []
+    for d in recs[1:]:
+        gaps.append(d["start"] - run)
+        run = max(run, d["end"])
+    if all(g > -bp for g in gaps):
+        return [dict(d) for d in recs]
+    key = (lambda d: (d["chromosome"], d["strand"])) if stranded else (lambda d: (d["chromosome"],))
+    srt = sorted(recs, key=lambda d: key(d) + (d["start"], d["end"]))
+    cmb = _oracle_combiners(recs[0].keys(), stranded, custom or {})
+    out, keys = [], []
+    for d in srt:
+        if key(d) not in keys:
+            keys.append(key(d))
+    for k in keys:
+        for g in _groups_running_max([d for d in srt if key(d) == k], bp):
+            row = dict(g[0])
+            if len(g) > 1:
+                row["end"] = max(d["end"] for d in g)
+                for c, f in cmb.items():
+                    row[c] = f([d[c] for d in g])
+            out.append(row)
+    return _chrom_resort(out)
+
+
+def _oracle_flatten(recs, custom=None):
+    if not recs:
+        return []
+    run, fast = recs[0]["end"], True
+    for d in recs[1:]:
+        fast = fast and d["start"] >= run
+        run = max(run, d["end"])
+    if fast:
+        return [dict(d) for d in recs]
+    srt = sorted(recs, key=lambda d: (d["chromosome"], d["start"], d["end"]))
+    cmb = _oracle_combiners(recs[0].keys(), False, custom or {})
+    out, chroms = [], []
+    for d in srt:
+        if d["chromosome"] not in chroms:
+            chroms.append(d["chromosome"])
+    for c in chroms:
+        for g in _groups_running_max([d for d in srt if d["chromosome"] == c], 0):
+            if len(g) == 1:
+                out.append(dict(g[0]))
+                continue
+            breaks = sorted({x for d in g for x in (d["start"], d["end"])})
+            for a, b in zip(breaks, breaks[1:]):
+                play = [d for d in g if d["start"] <= a and d["end"] >= b]
+                row = dict(g[0], start=a, end=b)
+                for col, f in cmb.items():
+                    row[col] = f([d[col] for d in play])
+                out.append(row)
+    return _chrom_resort(out)
+
+
+def _noncore(d):
+    return {k: v for k, v in d.items() if k not in ("chromosome", "start", "end")}
+
+
+def _rep_checks(op, i, opts, recs_a, recs_b, out_recs, in_cols):
+    """clauses about the columns the 4-column Lean model does not see"""
+    fails = []
+    if out_recs and list(out_recs[0].keys()) != list(in_cols):
+        fails.append("rep_columns_kept_in_order")
+        return fails
+    custom = CUSTOM_COMBINE[opts["combine"]]()[1] if opts.get("combine") else {}
+    if op == "merge":
+        exp = _oracle_merge(recs_a, i["bp"], bool(opts.get("stranded")), custom)
+        if opts.get("stranded"):
+            if out_recs != exp:
+                fails.append("rep_merge_stranded_rows")
+        elif [_noncore(d) for d in out_recs] != [_noncore(d) for d in exp]:
+            fails.append("rep_merge_combined_fields")
+    elif op == "flatten":
+        exp = _oracle_flatten(recs_a, custom)
+        if [_noncore(d) for d in out_recs] != [_noncore(d) for d in exp]:
+            fails.append("rep_flatten_combined_fields")
+    elif op in ("subtract", "intersect", "subdivide"):
+        src = _oracle_merge(recs_a, 0) if op == "subdivide" else recs_a
+        for p in out_recs:
+            if not any(r["chromosome"] == p["chromosome"] and r["start"] <= p["start"] and p["end"] <= r["end"]
+                       and _noncore(r) == _noncore(p) for r in src):
+                fails.append("rep_piece_carries_all_fields_of_its_row")
+                break
+    elif op == "resize":
+        sizes = dict((c, n) for c, n in i["sizes"]) if i["sizes"] else {}
+        exp = []
+        for r in recs_a:
+            hi = sizes.get(r["chromosome"])
+            clip = (lambda x: max(0, x) if hi is None else min(hi, max(0, x)))
+            d = dict(r, start=clip(r["start"] - i["bp"]), end=clip(r["end"] + i["bp"]))
+            if i["bp"] >= 0 or d["end"] - d["start"] > 0:
+                exp.append(d)
+        if out_recs != exp:
+            fails.append("rep_resize_rows_all_fields")
+    return fails
+
+
+def _run_rep(case):
+    import copy
+    op, i = case["op"], case["in"]
+    rep = i["rep"]
+    opts = rep.get("opts", {})
+    sub = i.get("sub")
+    key_a = "t" if "t" in i else "a"
+    A, recs_a = _ga_x(i[key_a], rep.get(key_a, {}), sub)
+    B = recs_b = None
+    if "b" in i:
+        B, recs_b = _ga_x(i["b"], rep.get("b", {}), sub)
+    before = [A.data.copy(deep=True), B.data.copy(deep=True) if B is not None else None]
+    kw = opts.get("call") == "kw"
+
+    def call():
+        if op == "merge":
+            args = {}
+            if opts.get("stranded"):
+                args["stranded"] = True
+            if opts.get("combine"):
+                args["combine"] = CUSTOM_COMBINE[opts["combine"]]()[0]
+            if i["bp"] == 0 and opts.get("call") == "default":
+                return A.merge(**args)
+            return A.merge(bp=i["bp"], **args) if kw or args else A.merge(i["bp"])
+        if op == "flatten":
+            args = {}
+            if opts.get("combine"):
+                args["combine"] = CUSTOM_COMBINE[opts["combine"]]()[0]
+            if opts.get("split"):
+                args["split_columns"] = opts["split"]
+            return A.flatten(**args)
+        if op == "total":
+            return A.total_range_size()
+        if op == "subtract":
+            return A.subtract(B)
+        if op == "intersect":
+            return A.intersection(B, mode=i["mode"]) if kw else A.intersection(B, i["mode"])
+        if op == "subdivide":
+            avg = i["avg_f"]
+            if opts.get("npnum"):
+                import numpy as np
+                avg = np.float64(avg) if isinstance(avg, float) else np.int64(avg)
+            if i["min"] == 0 and opts.get("call") == "default":
+                return A.subdivide(avg)
+            if kw:
+                return A.subdivide(avg_size=avg, min_size=i["min"], verbose=bool(opts.get("verbose")))
+            return A.subdivide(avg, i["min"], bool(opts.get("verbose")))
+        if op == "resize":
+            sizes = dict((c, n) for c, n in i["sizes"]) if i["sizes"] else None
+            if sizes and opts.get("sizes") == "superset":
+                sizes.update({c: n for c, n in {"chrQ": 7, "chr17_ctg5_hap1": 106433, "": 1}.items() if c not in sizes})
+            if sizes and opts.get("sizes") == "float":
+                sizes = {c: float(n) for c, n in sizes.items()}
+            if sizes is None and opts.get("call") == "default":
+                return A.resize_ranges(i["bp"])
+            return A.resize_ranges(bp=i["bp"], chrom_sizes=sizes) if kw else A.resize_ranges(i["bp"], sizes)
+        raise ValueError(op)
+
+    out = call()
+    fails = []
+    if op == "total":
+        res = int(out)
+        out_recs = None
+    else:
+        out_recs = _records_of(out)
+        res = T.rows_of(out)
+        fails += _rep_checks(op, i, opts, recs_a, recs_b, out_recs, list(A.data.columns))
+        if opts.get("stranded"):
+            res = [r for r, d in zip(res, out_recs) if d["strand"] == "+"]
+    # the inputs are what they were, and the same objects give the same answer again
+    if not before[0].equals(A.data) or (B is not None and not before[1].equals(B.data)):
+        fails.append("rep_input_table_unchanged")
+    if opts.get("twice"):
+        again = call()
+        same = (int(again) == res) if op == "total" else _records_of(again) == out_recs
+        if not same:
+            fails.append("rep_same_objects_same_answer")
+    return {"out": res, "rep_fail": fails}
+
+
+def _unwrap(impl):
+    if isinstance(impl, dict) and "rep_fail" in impl:
+        return impl["out"], list(impl["rep_fail"])
+    return impl, []
+
+
+def _model_in(case):
+    """what the 4-column Lean model is given: for stranded merges the '+' rows only (the '-' rows are judged by
+    the rep_merge_stranded_rows clause)"""
+    i = {k: v for k, v in case["in"].items() if k not in ("avg_f", "rep")}
+    rep = case["in"].get("rep") or {}
+    if rep.get("opts", {}).get("stranded"):
+        i["t"] = [r for k, r in enumerate(i["t"]) if _extra_value("strand", k) == "+"]
+    return i
+
+
 def to_line(case, impl):
-    line = {"op": case["op"], "in": {k: v for k, v in case["in"].items() if k != "avg_f"}}
+    line = {"op": case["op"], "in": _model_in(case)}
     if not (isinstance(impl, dict) and "__error__" in impl) and case["op"] != "total":
-        line["impl"] = impl
+        line["impl"] = _unwrap(impl)[0]
     return line
 
 
@@ -192,13 +650,14 @@ def judge(case, impl, resp):
         return ["raises_" + impl["__error__"]], [], None
     if "error" in resp:
         return [], ["model error: " + resp["error"]], None
-    spec = list(resp.get("spec") or [])
+    impl, rep_fail = _unwrap(impl)
+    spec = list(resp.get("spec") or []) + rep_fail
     disagree = []
     if case["op"] == "subdivide" and (spec or impl != resp["out"]) and len(case["in"]["t"]) <= 60 \
             and _float_cuts_differ(case):
         # the bin count round(span/avg) or a cut int(i*span/n) computed in doubles differs from exact arithmetic
         # (e.g. 10/0.4444444444444444 is 22.5 in doubles, 22.500000000000002 exactly): knife-edge, not a violation
-        return [], [], "float bin count / cut differs from exact arithmetic"
+        return rep_fail, [], "float bin count / cut differs from exact arithmetic"
     if impl != resp["out"]:
         disagree.append(f"{case['op']}: impl != model")
     return spec, disagree, None
